@@ -41,6 +41,10 @@ func MakeConfig(seed uint64, profile, tier string) SwarmConfig {
 	c.Genesis.PerpSafety = pick(r, []string{"1.025", "1.05", "1.2"})
 	c.Genesis.StableEpochLength = pick(r, []int64{1, 1, 5})
 	c.Genesis.EdenRewards = r.IntN(4) != 0
+	// tuning knobs of the amm's fee split: the defaults (half / a tenth) make distinct quantities coincide
+	if r.IntN(3) != 0 {
+		c.Genesis.AmmFeeSplit = []string{pick(r, []string{"0", "0.2", "0.8", "1"}), pick(r, []string{"0", "0.1", "0.5", "1"}), pick(r, []string{"0.0005", "0.005", "0.05"}), pick(r, []string{"0.05", "0.3", "0.6"})}
+	}
 	c.Genesis.Airdrops = profile == "C17" || profile == "C12" || profile == "C14"
 	// ---- agents: every agent is present with a rate drawn per run
 	lo := []float64{0, 0.15, 0.4, 0.7}
